@@ -119,7 +119,7 @@ def index_values(length, bits):
 def division_programs(div_lit=None):
     """v[0] = dividend, v[1] = divisor (or the literal div_lit, written into the source, under a run-time dividend)"""
     for op in ('/', '%'):
-        for form in ('as_statement', 'as_statement_in_speculation', 'expr', 'expr_byte', 'opassign_var', 'opassign_byte_var', 'opassign_elem', 'opassign_byte_elem',
+        for form in ('guarded_then_unguarded', 'skipped_then_taken', 'both_in_one_statement', 'as_statement', 'as_statement_in_speculation', 'expr', 'expr_byte', 'opassign_var', 'opassign_byte_var', 'opassign_elem', 'opassign_byte_elem',
                      'opassign_global', 'in_condition', 'in_index', 'in_arg'):
             pre, gl = [], []
             main_params = [('v', Arr(INT, True), False)]
@@ -127,7 +127,18 @@ def division_programs(div_lit=None):
             if div_lit is not None:
                 b = Lit(INT, div_lit, keep=True)
             body = [_mark('<')]
-            if form == 'as_statement':
+            if form in ('guarded_then_unguarded', 'skipped_then_taken', 'both_in_one_statement'):
+                # operands held in plain local variables (what a compiler can reason about within one statement)
+                body += [Decl('da', INT, a), Decl('db', INT, b)]
+                a, b = Var('da', INT), Var('db', INT)
+            if form == 'guarded_then_unguarded':
+                # the same divisor twice in one statement; the first division sits behind a short-circuit guard, the second does not
+                body += [If(Bin('or', Bin('and', Bin('!=', b, Lit(INT, 0)), Bin('>', Bin(op, a, b), Lit(INT, 1))), Bin('==', Bin('%', a, b), Lit(INT, 1))), [_mark('T')], [_mark('F')])]
+            elif form == 'skipped_then_taken':
+                body += _show(Bin('or', Bin('and', Bin('>', a, Lit(INT, 10000)), Bin('>', Bin(op, a, b), Lit(INT, 0))), Bin('==', Bin(op, a, b), Lit(INT, 0))))
+            elif form == 'both_in_one_statement':
+                body += _show(Bin('+', Bin('*', Bin(op, a, b), Lit(INT, 10)), Bin('%', a, b)))
+            elif form == 'as_statement':
                 body += [ExprStmt(Bin(op, a, b)), _mark('s')]             # evaluated for its fault only
             elif form == 'as_statement_in_speculation':
                 body += [ExprStmt(Spec(Bin(op, a, b), Lit(INT, 0))), _mark('s')]
